@@ -220,6 +220,41 @@ def setHop (h : Hd) (buf : Bytes) (idx : Nat) (x : Hop) : Bytes := writeAt buf (
 /-- `MetaHdr.SerializeTo(s.Raw[:MetaLen])` -/
 def setMeta (h : Hd) (buf : Bytes) (pm : Hdr) : Bytes := writeAt buf h.pathOff (natBE 4 (encode pm))
 
+/-! ### checked accesses: what the Go code does when an index or a slice is out of range
+
+`Raw.GetInfoField/GetHopField` return an error for an index beyond NumINF/NumHops and otherwise
+slice `s.Raw[off:off+len]`, which panics when the buffer is too short; the `Set…` methods and
+`MetaHdr.SerializeTo` write into such a sub-slice. `Rd.oob` / `none` below are those panics; the
+stages turn them into the explicit outcome `Disp.crash` (proved unreachable in `Props/C08Fast`). -/
+
+inductive Rd (α : Type)
+  | ok (a : α)
+  | err      -- the accessor returned an error (index out of bounds)
+  | oob      -- slice bounds out of range: Go panic
+
+def readInfo (h : Hd) (buf : Bytes) (idx : Nat) : Rd Info :=
+  if idx < h.numINF then
+    match decodeInfo (slice buf (infoOff h idx) 8) with
+    | some i => .ok i
+    | none => .oob
+  else .err
+
+def readHop (h : Hd) (buf : Bytes) (idx : Nat) : Rd Hop :=
+  if idx < h.numHops then
+    match decodeHop (slice buf (hopOff h idx) 12) with
+    | some x => .ok x
+    | none => .oob
+  else .err
+
+def wrInfo (h : Hd) (buf : Bytes) (idx : Nat) (i : Info) : Option Bytes :=
+  if infoOff h idx + 8 ≤ buf.length then some (setInfo h buf idx i) else none
+
+def wrHop (h : Hd) (buf : Bytes) (idx : Nat) (x : Hop) : Option Bytes :=
+  if hopOff h idx + 12 ≤ buf.length then some (setHop h buf idx x) else none
+
+def wrMeta (h : Hd) (buf : Bytes) (pm : Hdr) : Option Bytes :=
+  if h.pathOff + 4 ≤ buf.length then some (setMeta h buf pm) else none
+
 /-! ### the checks -/
 
 /-- key → 16-byte input → tag -/
@@ -304,12 +339,14 @@ def infoPtr (h : Hd) (pm : Hdr) : Nat := infoOff h pm.currINF
 
 /-- `parsePath`, `determinePeer` -/
 def stParse (h : Hd) (pm : Hdr) (raw : Bytes) : R St :=
-  match getHop h raw pm.currHF with
-  | none => .error (.discard, raw)
-  | some hop =>
-  match getInfo h raw pm.currINF with
-  | none => .error (.discard, raw)
-  | some inf =>
+  match readHop h raw pm.currHF with
+  | .err => .error (.discard, raw)
+  | .oob => .error (.crash, raw)
+  | .ok hop =>
+  match readInfo h raw pm.currINF with
+  | .err => .error (.discard, raw)
+  | .oob => .error (.crash, raw)
+  | .ok inf =>
     if !inf.peer && (pm.s0 == 1 || pm.s1 == 1 || pm.s2 == 1) then .error (.discard, raw) else
     if pm.currINF != infIdx pm pm.currHF then .error (.discard, raw) else
     match determinePeer pm inf with
@@ -324,8 +361,9 @@ def ingressUpdates (ing : Ingress) (inf : Info) (peering : Bool) : Bool :=
 def stSegID (h : Hd) (ing : Ingress) (s : St) : R St :=
   if ingressUpdates ing s.inf s.peering then
     if s.pm.currINF < h.numINF then
-      .ok { s with inf := updSegID s.inf s.hop,
-                   buf := setInfo h s.buf s.pm.currINF (updSegID s.inf s.hop) }
+      match wrInfo h s.buf s.pm.currINF (updSegID s.inf s.hop) with
+      | none => .error (.crash, s.buf)
+      | some b => .ok { s with inf := updSegID s.inf s.hop, buf := b }
     else .error (.discard, s.buf)
   else .ok s
 
@@ -381,7 +419,9 @@ def stMac (cfg : Cfg) (mac : Mac) (h : Hd) (ing : Ingress) (s : St) : R St :=
   if !macOk mac cfg.key s.inf s.hop then .error (.slow PP cBadMac (hopPtr h s.pm), s.buf) else
   if ing.ifID != 0 && ingressAlert s.inf s.hop then
     if s.pm.currHF < h.numHops then
-      .error (.alertIngress, setHop h s.buf s.pm.currHF (clearIngressAlert s.inf s.hop))
+      match wrHop h s.buf s.pm.currHF (clearIngressAlert s.inf s.hop) with
+      | none => .error (.crash, s.buf)
+      | some b => .error (.alertIngress, b)
     else .error (.discard, s.buf)
   else .ok s
 
@@ -409,18 +449,20 @@ def stXover (cfg : Cfg) (mac : Mac) (h : Hd) (now : Nat) (s : St) : R St :=
     match incPath (base h s.pm) with
     | .error _ => .error (.discard, s.buf)
     | .ok b' =>
-      match getHop h (setMeta h s.buf b'.pm) b'.pm.currHF with
-      | none => .error (.discard, setMeta h s.buf b'.pm)
-      | some hop2 =>
-      match getInfo h (setMeta h s.buf b'.pm) b'.pm.currINF with
-      | none => .error (.discard, setMeta h s.buf b'.pm)
-      | some inf2 =>
-        if !unexpired now inf2 hop2 then
-          .error (.slow PP cExpired (hopPtr h b'.pm), setMeta h s.buf b'.pm) else
-        if !macOk mac cfg.key inf2 hop2 then
-          .error (.slow PP cBadMac (hopPtr h b'.pm), setMeta h s.buf b'.pm) else
-        .ok { s with buf := setMeta h s.buf b'.pm, pm := b'.pm, hop := hop2, inf := inf2,
-                     effXover := true }
+      match wrMeta h s.buf b'.pm with
+      | none => .error (.crash, s.buf)
+      | some buf1 =>
+      match readHop h buf1 b'.pm.currHF with
+      | .err => .error (.discard, buf1)
+      | .oob => .error (.crash, buf1)
+      | .ok hop2 =>
+      match readInfo h buf1 b'.pm.currINF with
+      | .err => .error (.discard, buf1)
+      | .oob => .error (.crash, buf1)
+      | .ok inf2 =>
+        if !unexpired now inf2 hop2 then .error (.slow PP cExpired (hopPtr h b'.pm), buf1) else
+        if !macOk mac cfg.key inf2 hop2 then .error (.slow PP cBadMac (hopPtr h b'.pm), buf1) else
+        .ok { s with buf := buf1, pm := b'.pm, hop := hop2, inf := inf2, effXover := true }
   else .ok s
 
 /-- `egressInterface()` -/
@@ -465,7 +507,9 @@ def downType (l : Iface) : Nat := if l.scope != .external then tIntDown else tEx
 def stEgressAlertUp (h : Hd) (l : Iface) (s : St) : R St :=
   if egressAlert s.inf s.hop && l.scope == .external then
     if s.pm.currHF < h.numHops then
-      .error (.alertEgress, setHop h s.buf s.pm.currHF (clearEgressAlert s.inf s.hop))
+      match wrHop h s.buf s.pm.currHF (clearEgressAlert s.inf s.hop) with
+      | none => .error (.crash, s.buf)
+      | some b => .error (.alertEgress, b)
     else .error (.discard, s.buf)
   else if !l.up then .error (.slow (downType l) 0 0, s.buf)
   else .ok s
@@ -477,16 +521,23 @@ def egressUpdates (inf : Info) (peering : Bool) : Bool := inf.consDir && !peerin
 def stProcessEgress (h : Hd) (s : St) : R St :=
   if egressUpdates s.inf s.peering then
     if s.pm.currINF < h.numINF then
-      match incPath (base h s.pm) with
-      | .error _ => .error (.discard, setInfo h s.buf s.pm.currINF (updSegID s.inf s.hop))
-      | .ok b' =>
-        .ok { s with inf := updSegID s.inf s.hop, pm := b'.pm,
-                     buf := setMeta h (setInfo h s.buf s.pm.currINF (updSegID s.inf s.hop)) b'.pm }
+      match wrInfo h s.buf s.pm.currINF (updSegID s.inf s.hop) with
+      | none => .error (.crash, s.buf)
+      | some buf1 =>
+        match incPath (base h s.pm) with
+        | .error _ => .error (.discard, buf1)
+        | .ok b' =>
+          match wrMeta h buf1 b'.pm with
+          | none => .error (.crash, buf1)
+          | some buf2 => .ok { s with inf := updSegID s.inf s.hop, pm := b'.pm, buf := buf2 }
     else .error (.discard, s.buf)
   else
     match incPath (base h s.pm) with
     | .error _ => .error (.discard, s.buf)
-    | .ok b' => .ok { s with pm := b'.pm, buf := setMeta h s.buf b'.pm }
+    | .ok b' =>
+      match wrMeta h s.buf b'.pm with
+      | none => .error (.crash, s.buf)
+      | some buf2 => .ok { s with pm := b'.pm, buf := buf2 }
 
 /-- the outbound half of `process` -/
 def outbound (cfg : Cfg) (mac : Mac) (h : Hd) (now : Nat) (ing : Ingress) (s : St) : Disp × Bytes :=
